@@ -1,4 +1,5 @@
 import BtcwVerif.Lemmas.AddrNodup
+import BtcwVerif.Lemmas.AddrRename
 /-! Every state reached by any history satisfies `Inv` (official tree). -/
 set_option linter.unusedSectionVars false
 set_option linter.unusedVariables false
@@ -67,6 +68,8 @@ theorem step_inv {hd : HD K P} (hlaw : hd.Lawful) (hn : hd.NoHardPub) {s : State
         · exact opProps_inv h _ _
         · exact opRestart_inv h
         · exact opConvertWO_inv _ h
+        · rw [opDeriveCache_state]; exact h
+        · exact opRename_inv h _ _ _
 
 /-- the state reached by a history (`run` without the write stream) -/
 def runState (hd : HD K P) (ops : List (Op K P)) : State K P := ops.foldl (fun s op => (step Cfg.fixed hd s op).1) emptyState
